@@ -40,7 +40,8 @@ def run(c):
         "tracking (CorruptDirtyPages inside Engine.Commit)",
     ]
     c.prove("SH.Props.C18", extra_files=["SH/Model/Binlog.lean", "SH/Lemmas/Binlog.lean", "SH/Lemmas/BinlogRot.lean",
-                                        "SH/Lemmas/BinlogSim.lean", "SH/Lemmas/BinlogCut.lean", "SH/Lemmas/BinlogWriter.lean"])
+                                        "SH/Lemmas/BinlogSim.lean", "SH/Lemmas/BinlogCut.lean", "SH/Lemmas/BinlogWriter.lean",
+                                        "SH/Lemmas/BinlogAll.lean", "SH/Lemmas/BinlogWB.lean"])
     drv = c.driver(DRIVER)
     binary = c.go_build(HARNESS)
     if binary and drv:
@@ -67,37 +68,35 @@ META = {
     "technique": ("Lean 4 theorems over an executable byte-level model of putLevToBuffer / writer loop / reader "
                   "(induction over event lists, truncation points and writer schedules) + differential correspondence with the "
                   "real fsbinlog on a memory file system + direct replay/commit/damage oracle"),
-    "text": ("Kernel-checked, for all inputs: (replay_rotating, via the simulation theorem `sim`) started at ANY writer state - the "
-             "start of the log or any commit position with the crc reported there - reading the rest of the current chunk and "
-             "the later chunks the writer lays out delivers exactly the events appended afterwards, in order, each at the "
-             "offset Append returned, through any number of ROTATE_TO/ROTATE_FROM boundaries and crc records at any interval, "
-             "and ends at the writer's position and crc; (seek_resume/seek_nometa) the seek step of a resume with or without "
-             "snapshot meta lands in that state; (truncate_prefix) the last chunk cut at ANY point behind its ROTATE_FROM header "
-             "replays without error exactly the events that are complete in the cut - a prefix, never a partial event - the "
-             "excluded cut inside the header being the known finding (decide witnesses); (crc_record_checked) after ANY bytes "
-             "the running checksum is upd crc0 (bytes read) and a crc record is rejected iff the stored value differs; "
-             "(commit_monotone, commit_le_fsynced) for every schedule of appends and writer-loop iterations commit offsets "
-             "never decrease and never exceed the bytes that are in the files and covered by an fsync (invariant FsInv: buffer "
-             "accounting + rotatePos well-formedness); (append_after_stop_refused_or_durable) after the iteration that sees the "
-             "shutdown request every accepted byte is in the files and fsynced and every later Append is refused; (apNext_buff) the layout used by the replay theorems is byte for byte "
-             "what putLevToBuffer appends; (putLev_no_panic) a writer restarted inside the first chunk never takes the "
-             "out-of-range hashBuff2 slice. The model is tied to the code by replaying generated histories (sessions, rotations, "
-             "crc records, resumes, truncations, bit flips) on the real package and on the compiled model and diffing every "
-             "observation; the direct oracle checks replay/resume equality, commit <= fsynced bytes (gofs dirty pages), "
-             "truncation and bit-flip outcomes on the real code."),
+    "text": ("Kernel-checked, for all inputs: (readAll_from_commit / readAll_resume) readAllFromPosition END TO END on the files the "
+             "writer lays out for appends pre ++ post, called with the offset and snapshot meta of a commit issued after pre: directory "
+             "scan and sort, getBinlogIndexByPosition choosing the chunk, seek with checksum verification against the meta, replay of "
+             "the rest of that chunk and all later chunks = ok, exactly the events of post, in order, at the offsets Append returned, "
+             "through any number of ROTATE_TO/ROTATE_FROM boundaries and crc records at any interval; (readAll_from_start) the same "
+             "from offset 0 without meta, LevStart and tag skipped; (iter_files_layout, apNext_buff) one writer-loop iteration leaves "
+             "on disk byte for byte the chunks of that layout, and the layout is what putLevToBuffer appends; (truncate_prefix, "
+             "truncate_tail_files) a chunk cut at ANY point behind its ROTATE_FROM header - inside an event, a crc record or its "
+             "ROTATE_TO - with all later files removed replays without error exactly the complete events of what is left, a prefix, "
+             "never a partial event; the one excluded shape, a cut inside the 36-byte ROTATE_FROM header, is the known finding "
+             "(decide witnesses); (crc_record_checked) after ANY bytes the running checksum is upd crc0 (bytes read) and a crc "
+             "record is rejected iff the stored value differs; (commit_monotone, commit_le_fsynced) commit offsets never decrease "
+             "and never exceed the bytes in the files covered by an fsync, for every schedule; "
+             "(append_after_stop_refused_or_durable) no acknowledged append is lost around shutdown; (putLev_no_panic) a writer "
+             "restarted inside the first chunk never takes the out-of-range hashBuff2 slice. The model is tied to the code by "
+             "replaying generated histories (sessions, rotations, crc records, resumes, shutdown windows, truncations, bit flips) "
+             "on the real package and on the compiled model and diffing every observation; the direct oracle checks replay/resume "
+             "equality, acknowledged appends present after shutdown, commit <= fsynced bytes (gofs dirty pages), truncation and "
+             "bit-flip outcomes on the real code."),
     "note": ("Trusted: Lean kernel, the correspondence on generated histories (quick 200, thorough 400 histories incl. ~160 with "
              "every truncation offset and every single-bit flip of the last two chunks), gofs memory fs as the file system, "
-             "crc32/md5 as parameters. Still partial (correspondence/oracle only): the readAllFromPosition wrapper around the "
-             "proved core - directory scan + sort, indexByPos choosing the chunk of the commit position, and that the writer's "
-             "files satisfy the hypotheses of seek_resume (the header of every later chunk is proved to scan to the expected "
-             "header); reading the LevStart/tag records of the first chunk (replay from offset 0 instead of the first commit "
-             "position); writeBuffer splitting the buffer into exactly the layout's chunks (byte accounting is proved, contents "
-             "not); truncation that removes whole later files. The md5 chain is NOT verified by the Go reader (decide witness: a "
-             "ROTATE_FROM with a wrong prev-hash replays unchanged), so 'mismatching prev-hash is rejected' is false of the code "
-             "and not part of the property. Known finding truncated-file-header: a last chunk cut inside its 36-byte ROTATE_FROM "
-             "header (crash inside rotate()) makes the whole binlog unreadable (scan error; index panic for 1-3 bytes); "
-             "reproduced by the model (decide witnesses) and excluded by construction in truncate_prefix. Defect found and fixed "
-             "in round 1 (sig=append-panic, committed in /repo): Append panicked after a restart inside a first chunk longer than "
-             "32K; the model describes the fixed code."),
+             "crc32/md5 as parameters. Remaining partial points: readAll_from_commit is stated for a binlog written in one session "
+             "(start state behind the 44-byte head); for a binlog continued by a restarted writer the generic readAll_resume "
+             "applies once the accounting invariant Acc is shown for wsInit (not done); the truncation theorems are stated behind "
+             "the seek (finish/readFiles), not through readAll's scan; resume without meta is proved for the seek step only "
+             "(seek_nometa). The md5 chain is NOT verified by the Go reader (decide witness), so 'mismatching prev-hash is rejected' "
+             "is false of the code and not part of the property. Known finding truncated-file-header: a last chunk cut inside its "
+             "36-byte ROTATE_FROM header (crash inside rotate()) makes the whole binlog unreadable (scan error; index panic for 1-3 "
+             "bytes); reproduced by the model (decide witnesses) and the single exclusion of the truncation theorems. Defect found "
+             "and fixed in round 1 (sig=append-panic, committed in /repo); the model describes the fixed code."),
     "design_ref": "DESIGN.md §6 C18",
 }
